@@ -533,3 +533,151 @@ Proof.
       * destruct (Onq t n H1') as [Q1 Q2]. split; auto. intros i Hi. apply Q2. lia.
     + destruct (Onq u n H1) as [Q1 Q2]. split; auto. intros i Hi. apply Q2. lia.
 Qed.
+
+Lemma ret_keep (thrs : nat -> tst) t T' (nr l : nat) :
+  popping (pc T') = popping (pc (thrs t)) ->
+  (if popping (pc (thrs 0)) then nr + 1 = l else nr = l) ->
+  (if popping (pc (upd thrs t T' 0)) then nr + 1 = l else nr = l).
+Proof. intros E H. destruct (Nat.eq_dec 0 t) as [<-|Ne]; [rewrite upd_same, E|rewrite upd_other by assumption]; exact H. Qed.
+
+Ltac own_same Hpc := unfold own_list, pcl, lastl; cbn [pc last prog node hd with_pc]; rewrite Hpc; cbn [pushing popping].
+
+Theorem linv_step x t : GInv x -> GInv (lstep x t).
+Proof.
+  intros G. unfold lstep, step. remember (thr (base x) t) as T eqn:HT.
+  assert (LT := g_loc x G t). rewrite <- HT in LT. unfold local_ok in LT.
+  assert (CT : t <> 0 -> producer_pc (pc T) /\ pushonly (prog T)) by (rewrite HT; apply (g_cons x G)).
+  assert (OT : NoDup (own_list T)) by (rewrite HT; apply (g_own_nd x G)).
+  destruct (pc T) eqn:Hpc; cbn [fst].
+  - (* PData *)
+    apply frame_step; auto; rewrite <- ?HT; try (rewrite Hpc; discriminate); try (cbn; discriminate).
+    + intros m Hm. exfalso. apply Hm. reflexivity.
+    + intros m Hm. destruct (Nat.eq_dec m (node T)) as [->|Ne]; [|rewrite upd_other in Hm by assumption; congruence].
+      apply in_own_pushing. rewrite Hpc. reflexivity.
+    + replace (own_list (with_pc T PNull)) with (own_list T); auto. own_same Hpc. reflexivity.
+    + replace (own_list (with_pc T PNull)) with (own_list T); [apply incl_refl|]. own_same Hpc. reflexivity.
+    + intros Ht. destruct (CT Ht). split; auto. cbn. exact I.
+    + apply ret_keep; [rewrite <- HT, Hpc; reflexivity|apply (g_ret x G)].
+    + apply (g_qlog x G).
+    + unfold local_ok. cbn. apply upd_same.
+  - (* PNull *)
+    apply frame_step; auto; rewrite <- ?HT; try (rewrite Hpc; discriminate); try (cbn; discriminate).
+    + intros m Hm. destruct (Nat.eq_dec m (node T)) as [->|Ne]; [|rewrite upd_other in Hm by assumption; congruence].
+      apply in_own_pushing. rewrite Hpc. reflexivity.
+    + intros m Hm. exfalso. apply Hm. reflexivity.
+    + replace (own_list (with_pc T PXchg)) with (own_list T); auto. own_same Hpc. reflexivity.
+    + replace (own_list (with_pc T PXchg)) with (own_list T); [apply incl_refl|]. own_same Hpc. reflexivity.
+    + intros Ht. destruct (CT Ht). split; auto. cbn. exact I.
+    + apply ret_keep; [rewrite <- HT, Hpc; reflexivity|apply (g_ret x G)].
+    + apply (g_qlog x G).
+    + unfold local_ok. cbn. split; [exact LT|apply upd_same].
+  - (* PXchg *)
+    subst T. apply pxchg_inv; auto.
+  - (* PLink *)
+    subst T. apply plink_inv; auto.
+  - (* PSkip *)
+    apply (frame_step x t (next_op T) (nxt (base x)) (dat (base x)) (nret x) (qlog x)); auto;
+      rewrite <- ?HT; try (rewrite Hpc; discriminate); try apply next_op_not_plink.
+    + intros m Hm. exfalso. apply Hm. reflexivity.
+    + intros m Hm. exfalso. apply Hm. reflexivity.
+    + rewrite own_next_op; auto. unfold pcl. rewrite Hpc. reflexivity.
+    + rewrite own_next_op; [apply incl_refl|]. unfold pcl. rewrite Hpc. reflexivity.
+    + intros Ht. apply next_op_cons. apply (CT Ht).
+    + apply ret_keep; [rewrite <- HT, Hpc; apply next_op_popping|apply (g_ret x G)].
+    + apply (g_qlog x G).
+    + apply next_op_ok.
+  - (* QHead *)
+    apply (frame_step x t _ (nxt (base x)) (dat (base x)) (nret x) (qlog x)); auto;
+      rewrite <- ?HT; try (rewrite Hpc; discriminate); try (cbn; discriminate).
+    + intros m Hm. exfalso. apply Hm. reflexivity.
+    + intros m Hm. exfalso. apply Hm. reflexivity.
+    + match goal with |- NoDup ?l => replace l with (own_list T); auto end. own_same Hpc. reflexivity.
+    + match goal with |- incl ?l _ => replace l with (own_list T); [apply incl_refl|] end. own_same Hpc. reflexivity.
+    + intros Ht. destruct (CT Ht) as [[] _].
+    + apply ret_keep; [rewrite <- HT, Hpc; reflexivity|apply (g_ret x G)].
+    + apply (g_qlog x G).
+    + unfold local_ok. cbn. apply (g_head x G).
+  - (* QNext *)
+    destruct (nxt (base x) (hd T)) eqn:Hnx; cbn [fst].
+    + apply (frame_step x t (next_op T) (nxt (base x)) (dat (base x)) (nret x) (qlog x)); auto;
+        rewrite <- ?HT; try (rewrite Hpc; discriminate); try apply next_op_not_plink.
+      * intros m Hm. exfalso. apply Hm. reflexivity.
+      * intros m Hm. exfalso. apply Hm. reflexivity.
+      * rewrite own_next_op; auto. unfold pcl. rewrite Hpc. reflexivity.
+      * rewrite own_next_op; [apply incl_refl|]. unfold pcl. rewrite Hpc. reflexivity.
+      * intros Ht. destruct (CT Ht) as [[] _].
+      * apply ret_keep; [rewrite <- HT, Hpc; apply next_op_popping|apply (g_ret x G)].
+      * apply (g_qlog x G).
+      * apply next_op_ok.
+    + apply (frame_step x t _ (nxt (base x)) (dat (base x)) (nret x) (qlog x)); auto;
+        rewrite <- ?HT; try (rewrite Hpc; discriminate); try (cbn; discriminate).
+      * intros m Hm. exfalso. apply Hm. reflexivity.
+      * intros m Hm. exfalso. apply Hm. reflexivity.
+      * match goal with |- NoDup ?l => replace l with (own_list T); auto end. own_same Hpc. reflexivity.
+      * match goal with |- incl ?l _ => replace l with (own_list T); [apply incl_refl|] end. own_same Hpc. reflexivity.
+      * intros Ht. destruct (CT Ht) as [[] _].
+      * apply ret_keep; [rewrite <- HT, Hpc; reflexivity|apply (g_ret x G)].
+      * apply (g_qlog x G).
+      * unfold local_ok. cbn [pc base nodeat lo hi hd hn].
+        rewrite LT in Hnx.
+        assert (lo x < hi x).
+        { destruct (Nat.eq_dec (lo x) (hi x)) as [E|]; [|pose proof (g_ord x G); lia].
+          rewrite E in Hnx. rewrite (g_last x G) in Hnx. discriminate. }
+        destruct (g_link x G (lo x) ltac:(lia)) as [[A B]|[A B]]; [congruence|].
+        repeat split; auto; try congruence.
+        intros L. apply A. revert L. apply linkingN_local with (t := t) (T' := {| pc := QSetHead; node := node T; arg := arg T; prev := prev T; hd := hd T; hn := S n; rdv := rdv T; last := last T; prog := prog T; opi := opi T |}); [reflexivity| |cbn; discriminate].
+        rewrite <- HT, Hpc. discriminate.
+  - (* QSetHead *)
+    subst T. apply qsethead_inv; auto.
+  - (* QRead *)
+    apply (frame_step x t _ (nxt (base x)) (dat (base x)) (nret x) (qlog x)); auto;
+      rewrite <- ?HT; try (rewrite Hpc; discriminate); try (cbn; discriminate).
+    + intros m Hm. exfalso. apply Hm. reflexivity.
+    + intros m Hm. exfalso. apply Hm. reflexivity.
+    + match goal with |- NoDup ?l => replace l with (own_list T); auto end. own_same Hpc. reflexivity.
+    + match goal with |- incl ?l _ => replace l with (own_list T); [apply incl_refl|] end. own_same Hpc. reflexivity.
+    + intros Ht. destruct (CT Ht) as [[] _].
+    + apply ret_keep; [rewrite <- HT, Hpc; reflexivity|apply (g_ret x G)].
+    + apply (g_qlog x G).
+    + unfold local_ok. cbn. apply LT.
+  - (* QWrite *)
+    apply frame_step; auto; rewrite <- ?HT; try (rewrite Hpc; discriminate); try (cbn; discriminate).
+    + intros m Hm. exfalso. apply Hm. reflexivity.
+    + intros m Hm. destruct (Nat.eq_dec m (hd T)) as [->|Ne]; [|rewrite upd_other in Hm by assumption; congruence].
+      apply in_own_popping. rewrite Hpc. reflexivity.
+    + replace (own_list (with_pc T QUse)) with (own_list T); auto. own_same Hpc. reflexivity.
+    + replace (own_list (with_pc T QUse)) with (own_list T); [apply incl_refl|]. own_same Hpc. reflexivity.
+    + intros Ht. destruct (CT Ht) as [[] _].
+    + apply ret_keep; [rewrite <- HT, Hpc; reflexivity|apply (g_ret x G)].
+    + apply (g_qlog x G).
+    + unfold local_ok. cbn. rewrite upd_same. exact LT.
+  - (* QUse *)
+    assert (T0 : t = 0).
+    { destruct (Nat.eq_dec t 0) as [|Ne]; auto. destruct (CT Ne) as [[] _]. }
+    assert (HdO : In (hd T) (own_list T)) by (apply in_own_popping; rewrite Hpc; reflexivity).
+    assert (Hnz : hd T <> 0) by (rewrite HT in HdO; apply (g_own_nq x G t _ HdO)).
+    assert (OD : own_list (next_op (done_pop T)) = hd T :: pushed (prog T)).
+    { rewrite own_next_op by reflexivity. unfold own_list, pcl, lastl. cbn. destruct (hd T); [congruence|reflexivity]. }
+    assert (OTT : own_list T = lastl T ++ hd T :: pushed (prog T)).
+    { unfold own_list, pcl. rewrite Hpc. reflexivity. }
+    assert (Rt := g_ret x G). rewrite <- T0, <- HT, Hpc in Rt. cbn in Rt.
+    apply (frame_step x t _ (nxt (base x)) (dat (base x))); auto;
+      rewrite <- ?HT; try (rewrite Hpc; discriminate); try apply next_op_not_plink.
+    + intros m Hm. exfalso. apply Hm. reflexivity.
+    + intros m Hm. exfalso. apply Hm. reflexivity.
+    + rewrite OD. rewrite OTT in OT. clear - OT. induction (lastl T); cbn in *; auto. inversion OT; auto.
+    + rewrite OD, OTT. intros n Hn. apply in_or_app. right. exact Hn.
+    + intros Ht. contradiction.
+    + subst t. rewrite upd_same. rewrite next_op_popping. lia.
+    + rewrite seq_snoc, map_app. cbn [map]. rewrite <- (g_qlog x G). f_equal. rewrite LT. f_equal. f_equal. lia.
+    + apply next_op_ok.
+  - (* Fin *)
+    destruct x; exact G.
+Qed.
+
+Theorem ireach_inv progs x : wf progs -> ireach progs x -> GInv x.
+Proof.
+  intros W. induction 1 as [|x t R IH].
+  - apply init_inv; exact W.
+  - apply linv_step; exact IH.
+Qed.
